@@ -248,7 +248,7 @@ func (vc *FuncVC) execBuiltin(st *State, reach Term, ins *ssa.Call, b *ssa.Built
 					ls, ps, caps := sv.Elems[1].T, sv.Elems[0].T, vc.capOf(sv)
 					var lt, pt Term
 					if tIsString {
-						lt = vc.fresh("strlen", SInt)
+						lt = vc.strLen(vc.scalar(args[1]))
 						if c, isC := args[1].(*ssa.Const); isC && c.Value != nil && c.Value.Kind() == constant.String {
 							lt = IntLit(int64(len(constant.StringVal(c.Value))))
 						} else {
@@ -294,6 +294,10 @@ func (vc *FuncVC) execBuiltin(st *State, reach Term, ins *ssa.Call, b *ssa.Built
 						for k, b := range []byte(constant.StringVal(c.Value)) {
 							vc.assume(Eq(Select(na, Add(p, Add(ls, IntLit(int64(k)))), es), IntLit(int64(b))))
 						}
+					} else {
+						code := vc.scalar(args[1])
+						c2 := Implies(And(Le(Add(p, ls), j), Lt(j, Add(p, n))), Eq(Select(na, j, es), vc.strByte(code, Sub(j, Add(p, ls)))))
+						vc.assume(Term{fmt.Sprintf("(forall ((%s Int)) (! %s :pattern (%s)))", j.S, c2.S, Select(na, j, es).S), SBool})
 					}
 					vc.vals[ins] = &Val{Kind: vSlice, Elems: []*Val{{T: p}, {T: n}, {T: ncap}}, GoType: ins.Type()}
 					return
